@@ -120,7 +120,7 @@ theorem step_invAnti (P : Params) (s : State) (i : Instr) (h : InvAnti s) : InvA
           · rw [primEvents_stack hev, hst]; exact ha
           · exact he ev hev
         · exact ⟨by simpa [halt, hst] using ha, he⟩
-      | call p tk rq t sto =>
+      | call p tk rq t =>
         simp only
         split
         · refine ⟨?_, ?_⟩
@@ -153,6 +153,16 @@ theorem step_invAnti (P : Params) (s : State) (i : Instr) (h : InvAnti s) : InvA
               · simpa [hst] using ha
               · exact he ev hev
         · exact ⟨by simpa [halt, hst] using ha, he⟩
+      | update m =>
+        simp only
+        split
+        · split <;> first | exact ⟨ha, he⟩ | exact h | exact ⟨by rw [hst]; exact ha, he⟩
+        · first | exact ⟨ha, he⟩ | exact h | exact ⟨by rw [hst]; exact ha, he⟩
+      | destroy =>
+        simp only
+        split
+        · split <;> first | exact ⟨ha, he⟩ | exact h | exact ⟨by rw [hst]; exact ha, he⟩
+        · first | exact ⟨ha, he⟩ | exact h | exact ⟨by rw [hst]; exact ha, he⟩
       | ret =>
         simp only
         split
@@ -210,7 +220,7 @@ theorem step_invTop (P : Params) (k : EffKind) (s : State) (i : Instr) (hq : i.g
           · rw [hst] at hev; exact primEvents_top (hq p rfl) hhas hev hk
           · exact h ev hev hk
         · exact h
-      | call p tk rq t sto =>
+      | call p tk rq t =>
         simp only
         split
         · rename_i hc
@@ -248,6 +258,16 @@ theorem step_invTop (P : Params) (k : EffKind) (s : State) (i : Instr) (hq : i.g
               exact has_kind .call hc.1 (hq p rfl hc.2)
             · exact h ev hev hk
         · exact h
+      | update m =>
+        simp only
+        split
+        · split <;> first | exact ⟨ha, he⟩ | exact h | exact ⟨by rw [hst]; exact ha, he⟩
+        · first | exact ⟨ha, he⟩ | exact h | exact ⟨by rw [hst]; exact ha, he⟩
+      | destroy =>
+        simp only
+        split
+        · split <;> first | exact ⟨ha, he⟩ | exact h | exact ⟨by rw [hst]; exact ha, he⟩
+        · first | exact ⟨ha, he⟩ | exact h | exact ⟨by rw [hst]; exact ha, he⟩
       | ret =>
         simp only
         split <;> exact h
@@ -294,7 +314,7 @@ theorem step_invSafe (P : Params) (hP : P.SafeDrops)
           · rw [primEvents_stack hev]; exact ha
           · exact he ev hev
         · exact ⟨ha, he⟩
-      | call p tk rq t sto =>
+      | call p tk rq t =>
         simp only
         split
         · refine ⟨?_, ?_⟩
@@ -328,6 +348,16 @@ theorem step_invSafe (P : Params) (hP : P.SafeDrops)
             · exact ha
             · exact he ev hev
         · exact ⟨ha, he⟩
+      | update m =>
+        simp only
+        split
+        · split <;> first | exact ⟨ha, he⟩ | exact h | exact ⟨by rw [hst]; exact ha, he⟩
+        · first | exact ⟨ha, he⟩ | exact h | exact ⟨by rw [hst]; exact ha, he⟩
+      | destroy =>
+        simp only
+        split
+        · split <;> first | exact ⟨ha, he⟩ | exact h | exact ⟨by rw [hst]; exact ha, he⟩
+        · first | exact ⟨ha, he⟩ | exact h | exact ⟨by rw [hst]; exact ha, he⟩
       | ret =>
         simp only
         split
@@ -367,7 +397,7 @@ theorem step_invPerm (P : Params) (s : State) (i : Instr) (h : InvPerm s) : InvP
           · rw [primEvents_target hev] at ht; cases ht
           · exact h ev hev t ht
         · exact h
-      | call p tk rq t sto =>
+      | call p tk rq t =>
         simp only
         split
         · rename_i hc
@@ -400,6 +430,16 @@ theorem step_invPerm (P : Params) (s : State) (i : Instr) (h : InvPerm s) : InvP
             · cases ht
             · exact h ev hev t' ht
         · exact h
+      | update m =>
+        simp only
+        split
+        · split <;> first | exact ⟨ha, he⟩ | exact h | exact ⟨by rw [hst]; exact ha, he⟩
+        · first | exact ⟨ha, he⟩ | exact h | exact ⟨by rw [hst]; exact ha, he⟩
+      | destroy =>
+        simp only
+        split
+        · split <;> first | exact ⟨ha, he⟩ | exact h | exact ⟨by rw [hst]; exact ha, he⟩
+        · first | exact ⟨ha, he⟩ | exact h | exact ⟨by rw [hst]; exact ha, he⟩
       | ret =>
         simp only
         split <;> exact h
@@ -420,7 +460,7 @@ theorem step_invChecked (P : Params) (s : State) (i : Instr) (h : InvChecked P s
           · rw [primEvents_target hev] at ht; cases ht
           · exact h ev hev t ht
         · exact h
-      | call p tk rq t sto =>
+      | call p tk rq t =>
         simp only
         split
         · intro ev hev t' ht' c r hstack
@@ -429,7 +469,7 @@ theorem step_invChecked (P : Params) (s : State) (i : Instr) (h : InvChecked P s
             subst ht'
             simp only [hst, List.cons.injEq] at hstack
             obtain ⟨rfl, rfl⟩ := hstack
-            exact ⟨sto, rfl⟩
+            exact ⟨_, rfl⟩
           · exact h ev hev t' ht' c r hstack
         · exact h
       | loadScript p rq =>
@@ -450,6 +490,16 @@ theorem step_invChecked (P : Params) (s : State) (i : Instr) (h : InvChecked P s
             · cases ht
             · exact h ev hev t' ht
         · exact h
+      | update m =>
+        simp only
+        split
+        · split <;> first | exact ⟨ha, he⟩ | exact h | exact ⟨by rw [hst]; exact ha, he⟩
+        · first | exact ⟨ha, he⟩ | exact h | exact ⟨by rw [hst]; exact ha, he⟩
+      | destroy =>
+        simp only
+        split
+        · split <;> first | exact ⟨ha, he⟩ | exact h | exact ⟨by rw [hst]; exact ha, he⟩
+        · first | exact ⟨ha, he⟩ | exact h | exact ⟨by rw [hst]; exact ha, he⟩
       | ret =>
         simp only
         split <;> exact h
@@ -483,7 +533,7 @@ theorem step_invRoot (P : Params) (f0 : CallFlags) (s : State) (i : Instr) (h : 
           · rw [primEvents_stack hev]; exact ha
           · exact he ev hev
         · exact ⟨ha, he⟩
-      | call p tk rq t sto =>
+      | call p tk rq t =>
         simp only
         split
         · refine ⟨push _ (childFlags_le _ _ _ _ _), ?_⟩
@@ -512,6 +562,16 @@ theorem step_invRoot (P : Params) (f0 : CallFlags) (s : State) (i : Instr) (h : 
             · exact ha
             · exact he ev hev
         · exact ⟨ha, he⟩
+      | update m =>
+        simp only
+        split
+        · split <;> first | exact ⟨ha, he⟩ | exact h | exact ⟨by rw [hst]; exact ha, he⟩
+        · first | exact ⟨ha, he⟩ | exact h | exact ⟨by rw [hst]; exact ha, he⟩
+      | destroy =>
+        simp only
+        split
+        · split <;> first | exact ⟨ha, he⟩ | exact h | exact ⟨by rw [hst]; exact ha, he⟩
+        · first | exact ⟨ha, he⟩ | exact h | exact ⟨by rw [hst]; exact ha, he⟩
       | ret =>
         simp only
         split
@@ -563,7 +623,7 @@ theorem step_invVia (P : Params) (s : State) (i : Instr) (h : InvVia s) : InvVia
           · rw [primEvents_stack hev]; exact ha
           · exact he ev hev
         · exact ⟨ha, he⟩
-      | call p tk rq t sto =>
+      | call p tk rq t =>
         simp only
         split
         · refine ⟨push _ ⟨childFlags_le_requested _ _ _ _ _, by cases tk <;> simp, by cases tk <;> simp⟩, ?_⟩
@@ -592,6 +652,16 @@ theorem step_invVia (P : Params) (s : State) (i : Instr) (h : InvVia s) : InvVia
             · exact ha
             · exact he ev hev
         · exact ⟨ha, he⟩
+      | update m =>
+        simp only
+        split
+        · split <;> first | exact ⟨ha, he⟩ | exact h | exact ⟨by rw [hst]; exact ha, he⟩
+        · first | exact ⟨ha, he⟩ | exact h | exact ⟨by rw [hst]; exact ha, he⟩
+      | destroy =>
+        simp only
+        split
+        · split <;> first | exact ⟨ha, he⟩ | exact h | exact ⟨by rw [hst]; exact ha, he⟩
+        · first | exact ⟨ha, he⟩ | exact h | exact ⟨by rw [hst]; exact ha, he⟩
       | ret =>
         simp only
         split
